@@ -557,7 +557,48 @@ def r7_hash_mode(w):
     return r
 
 
-RULES = [r1_total_dispatch, r2_no_significant_child_dropped, r3_spelling, r4_order_and_disambiguation, r5_statement_boundaries, r6_token_separation, r7_hash_mode]
+def _shared(rs, new_id):
+    old = rs.rule
+    rs.rule = new_id
+    for f in rs.findings:
+        f.rule = new_id
+        f.key = f.key.replace(old + '|', new_id + '|', 1)
+    return rs
+
+
+def r8_comments_swallow_nothing(w):
+    """= C04.R1: a line comment that is not followed by a hard break swallows the tokens after it - they disappear from the tree"""
+    from rules import c04
+    return _shared(c04.r1_line_comment_discipline(w), 'C01.R8')
+
+
+def r9_significant_whitespace(w):
+    """= C09.R1 and C08.R1: in math and in markup a Space is not layout - juxtaposed atoms (`a b` -> `ab`) and prose pieces merge into other tokens,
+    a Space turned into a line break (or the reverse) changes paragraph and item structure"""
+    from rules import c08, c09
+    return [_shared(c09.r1_math_space_mapping(w), 'C01.R9a'), _shared(c08.r1_no_soft_breaks_between_prose(w), 'C01.R9b')]
+
+
+def r10_item_nesting(w):
+    """the printer side of C13.R6: Typst derives the nesting of list / enum / term items from indentation, so the body of an item has to be
+    printed inside (at least) one `nest(unit)` - otherwise continuation lines and nested items leave the item"""
+    from rules import c13
+    r = RuleResult('C01.R10', 'the converters of ListItem / EnumItem / TermItem put the conversion of the body inside a nest(unit)', floor=3)
+    nests = c13._printer_item_nests(w)
+    for K in c13.ITEM_KINDS:
+        cons = {'item': K, 'nest_wrappers_around_body': nests.get(K)}
+        if nests.get(K) is None:
+            r.bad(cons, 'item-nest|%s|not-evaluated' % K, 'the conversion of a %s could not be evaluated' % K)
+        elif nests[K] >= 1:
+            r.ok(cons, 'the body is indented %d unit(s) below the marker' % nests[K])
+        else:
+            r.bad(cons, 'item-nest|%s' % K, 'the body of a %s is not printed inside a nest(unit): continuation lines and nested items start at the marker\'s column and '
+                  'leave the item (Typst derives item nesting from indentation)' % K)
+    return r
+
+
+RULES = [r1_total_dispatch, r2_no_significant_child_dropped, r3_spelling, r4_order_and_disambiguation, r5_statement_boundaries, r6_token_separation, r7_hash_mode,
+         r8_comments_swallow_nothing, r9_significant_whitespace, r10_item_nesting]
 for _f in RULES:
     _f.needs = ('core',)
 MATRIX_RULES = [r2_no_significant_child_dropped]
